@@ -39,6 +39,8 @@ def scenario_table(two_way, resp_docs, fault_doc, wrong_doc):
     sc.append(("ok-pushed-down-nonascii-creds", 200, "resp3", 0, 3, ok))
     sc.append(("ok-pretty", 200, "resp4", 0, 0, ok))
     sc.append(("201-envelope", 201, "resp0", 0, 0, ok))
+    sc.append(("200-chunked-envelope", 200, "resp1", 4, 1, ok))
+    sc.append(("500-chunked-envelope", 500, "resp0", 4, 0, "error"))
     sc.append(("204-empty", 204, "empty", 0, 0, "error" if two_way else ok))
     for st in (400, 401, 403, 404, 500, 503):
         sc.append((f"{st}-envelope-body", st, "resp0", 0, 0, "error"))
